@@ -347,8 +347,8 @@ def concrete(case):
         import conda_content_trust.root_signing as RS
         import conda_content_trust.common as C
         payload = from_wire(case['payload'])
-        data = {'json': lambda: C.canonserialize({'signatures': {}, 'signed': payload}), 'notjson': lambda: b'{not json', 'missing': lambda: None,
-                'notsignable': lambda: C.canonserialize({'signed': payload})}[case['content']]()
+        data = {'json': lambda: CC.ref_canon({'signatures': {}, 'signed': payload}), 'notjson': lambda: b'{not json', 'missing': lambda: None,
+                'notsignable': lambda: CC.ref_canon({'signed': payload})}[case['content']]()
         inj_holder = {}
 
         class Fake:
